@@ -80,6 +80,7 @@ def run_cache(ctx, tr, data: bytes, omit, dep, eb, via, scn):
     d = ctx.tmp("c11")
     inp, oute, outc = d / "in.suit", d / "out.suit", d / "cache.bin"
     inp.write_bytes(data)
+    core.through_link(inp, len(data) % 4 == 1)
     err = None
     if scn.get("stale"):
         # history: both output files exist already, left by an earlier invocation; a file still holding the marker afterwards
